@@ -51,6 +51,7 @@ pub mod alg {
     pub const ED25519_SIG_INVALID: u8 = 26; // signature made with a verifying key that does not belong to the signing key
     pub const P384_VALID: u8 = 27;
     pub const RSA_MISC: u8 = 28;
+    pub const XCHACHA20POLY1305_KS: u8 = 29; // keystream of the AEAD construction: key, nonce(24) ‖ le32(chunk)
 }
 
 #[derive(Clone, Copy)]
